@@ -302,7 +302,9 @@ func (t *ZeroAllocTokenizer) TokenizeExpression(expr string) []Token {
 		}
 
 		// Handle identifiers, literals, etc.
-		if (c >= 'a' && c <= 'z') || (c >= 'A' && c <= 'Z') || c == '_' {
+		// (bytes above 0x7f are letters of a name written in UTF-8: dropping them would turn
+		// x.ÜName into x.Name)
+		if (c >= 'a' && c <= 'z') || (c >= 'A' && c <= 'Z') || c == '_' || c >= 0x80 {
 			// Start of an identifier
 			start := t.position
 
@@ -312,7 +314,7 @@ func (t *ZeroAllocTokenizer) TokenizeExpression(expr string) []Token {
 				((t.source[t.position] >= 'a' && t.source[t.position] <= 'z') ||
 					(t.source[t.position] >= 'A' && t.source[t.position] <= 'Z') ||
 					(t.source[t.position] >= '0' && t.source[t.position] <= '9') ||
-					t.source[t.position] == '_') {
+					t.source[t.position] == '_' || t.source[t.position] >= 0x80) {
 				t.position++
 			}
 
